@@ -1,5 +1,6 @@
 import XmlRsModel.Infoset
 import XmlRsModel.Gen.XPathGrammar
+import XmlRsModel.Gen.XPathGrammarRef
 /-! XPath 1.0 abstract syntax and its construction from the concrete syntax tree of the grammar that is
     GENERATED from `xpath/src/expr/mod.rs` (`Gen/XPathGrammar.lean`).  The abstraction reads the tree
     by production labels, not by position, so that a harmless restructuring of a production does not
@@ -234,6 +235,16 @@ def parseExpr (s : Str) : Except ParseErr Expr :=
   | .fail => .error .syntax
   | .ok c rest =>
     if maxDepth_expr != 0 && exprDepth c > maxDepth_expr then .error .syntax
+    else if rest.isEmpty then .ok (absNode (c.size + 2) N.parse (match c with | .node _ b => b | x => x)) else .error .remain
+
+/-- the same over the REVIEWED expression grammar (`Gen/XPathGrammarRef.lean`, from tools/ref/xpath.json)
+    and its nesting limit: the reference that does not move when the source moves -/
+def parseExprRef (s : Str) : Except ParseErr Expr :=
+  match run Gen.XPathRef.env (xpathFuel s) (.nt N.parse) s with
+  | .fuel => .error .fuel
+  | .fail => .error .syntax
+  | .ok c rest =>
+    if Gen.XPathRef.maxDepth_expr != 0 && exprDepth c > Gen.XPathRef.maxDepth_expr then .error .syntax
     else if rest.isEmpty then .ok (absNode (c.size + 2) N.parse (match c with | .node _ b => b | x => x)) else .error .remain
 
 end XmlRs.XPath
